@@ -8,11 +8,14 @@ From DV Require Import Base.Prelude Model.NameM Model.DnssecM.
 Open Scope Z_scope.
 
 (* ---------- RFC 4034 6.2: canonical RR form ---------- *)
-(* (1) every name is fully expanded (no compression, relative names completed with the origin) *)
+(* (1) every name is fully expanded (no compression, relative names completed with the origin);
+   a completed name of more than 255 octets is not a domain name *)
 Definition rfc_expand (n : name) (origin : option name) : res name :=
   if is_absolute n then Ok n
   else match origin with
-       | Some o => if is_absolute o then Ok (n ++ o) else Lib eNeedAbsolute
+       | Some o => if is_absolute o
+                   then if wire_length n + wire_length o >? 255 then Lib eNameTooLong else Ok (n ++ o)
+                   else Lib eNeedAbsolute
        | None => Lib eNeedAbsolute
        end.
 
